@@ -11,6 +11,7 @@ package main
 //@ props C19
 //@ effects_only
 //@ effect io_only os.Open, io/ioutil.ReadAll, ioutil.ReadAll, (*os.File).Close, <dynamic call gen>, panic, string
+//@ effect no_recover
 
 // C08 (mode switches): the file type named on the command line selects the back end - "go" the Go template builder,
 // "typescript" the TypeScript builder - and both get the same input path and output path (arguments 1 and 2)
